@@ -118,13 +118,13 @@ def parse_number(string):
 
 def power(number, exponent):
     """
-    number ** exponent. Integers stay exact as long as the result is within the range of
-    numbers a sheet can hold (below 2**1024); beyond it the answer is #NUM! - Python would
-    go on multiplying for ever (9^999999999).
+    number ** exponent. Integers stay exact, as whole-number literals of any length do (2^1024
+    is the number its 309 digits spell) - up to a million bits: beyond that the answer is #NUM!,
+    Python would go on multiplying for ever (9^999999999).
     """
     if (isinstance(number, integer_types) and isinstance(exponent, integer_types)
             and exponent > 0 and abs(number) > 1
-            and exponent * (abs(number).bit_length() - 1) >= 1024):
+            and exponent * (abs(number).bit_length() - 1) >= 2**20):
         return error.NUM
     try:
         return number ** exponent
